@@ -8,6 +8,8 @@
   to the stated hypotheses, which the harness checks on every real diff.
 -/
 import GitAiModel.Lemmas.Tracker
+import GitAiModel.Lemmas.TrackerRoundtrip
+import GitAiModel.Lemmas.TrackerIdentity
 namespace GitAi.Tracker
 open GitAi
 
@@ -63,8 +65,113 @@ example :
       [] [⟨0, 1, 0, 2, 0, 1⟩] [⟨0, 16, human, 1⟩] ['A'] 1
     = .ok [⟨0, 3, ['A'], 1⟩, ⟨3, 14, human, 1⟩] := by decide
 
+/-! ## 3. Line ↔ char round trip -/
+
+/-- **C16 line_char_roundtrip.** For every text whose lines start and end on char boundaries
+    (every valid UTF-8 text), every list `L` of in-range, pairwise disjoint, non-human line
+    attributions (any order) and every timestamp: converting `L` to char ranges and back
+    succeeds (no slice panics) and assigns every line number the author `L` assigns it —
+    the same AI lines with the same authors. -/
+theorem line_char_roundtrip (c : Text) (L : List LineAttr) (ts : Nat) (hb : LinesOnBoundaries c)
+    (hL : LinesOk (lineRanges c).length L) :
+    ∃ R, toLineAttrs (lineAttrsToAttrs L c ts) c = .ok R ∧ ∀ k, lineAuthor R k = lineAuthor L k :=
+  roundtrip_core c L ts hb hL
+
+/-- non-vacuity: "é\n\n  x\r\nlast" (a blank line, CRLF, no final newline) with two disjoint,
+    unsorted AI line attributions -/
+example : LinesOnBoundaries [0xC3, 0xA9, 10, 10, 32, 32, 120, 13, 10, 108, 97, 115, 116] := by
+  intro p hp
+  have : p ∈ [(0, 3), (3, 4), (4, 9), (9, 13)] := by simpa [lineRanges, linesGo] using hp
+  simp only [List.mem_cons, List.mem_nil_iff, or_false] at this
+  rcases this with rfl | rfl | rfl | rfl <;> decide
+example : LinesOk 4 [⟨3, 4, ['a', 'i', '2'], none⟩, ⟨1, 1, ['a', 'i', '1'], none⟩] := by
+  refine ⟨?_, ?_⟩
+  · intro l hl
+    simp only [List.mem_cons, List.mem_nil_iff, or_false] at hl
+    rcases hl with rfl | rfl <;> exact ⟨by decide, by decide, by decide, by decide⟩
+  · simp [DisjointLines]
+
+/-- excluded region 1: a line attributed to "human" is stripped by the projection, so it does
+    not come back (the property speaks of AI lines). -/
+theorem witness_roundtrip_human :
+    toLineAttrs (lineAttrsToAttrs [⟨1, 1, human, none⟩] [97, 98, 10] 5) [97, 98, 10] = .ok [] := by decide
+
+/-- excluded region 2: for overlapping line attributions the author of a shared line is the
+    first in (start, end, index) order — the same SET of AI lines comes back (stated, not
+    proved here; checked by the oracle `line_char_roundtrip_set`), not the same authors. -/
+theorem witness_roundtrip_overlap :
+    toLineAttrs (lineAttrsToAttrs [⟨1, 2, ['x'], none⟩, ⟨2, 2, ['y'], none⟩] [97, 10, 98, 10] 5) [97, 10, 98, 10]
+      = .ok [⟨1, 2, ['x'], none⟩] := by decide
+
+/-! ## 4. Identical text -/
+
+/-- **C16 identity (exact form).** On an identical text (the diff is one Equal segment) and
+    priors that are non-empty ranges inside the text — overlapping, unsorted, duplicated, off
+    boundaries, any authors and timestamps — `update_attributions` returns exactly the
+    sorted, de-duplicated, coalesced priors: nothing is moved, dropped or re-attributed, and no
+    move mapping or substantive range can interfere. -/
+theorem identity_update (c : Text) (subst : List (Nat × Nat)) (moves : List Move) (P : List Attr)
+    (author : Str) (ts : Nat) (hP : Tame c.length P) :
+    update [⟨.equal, c⟩] subst moves P author ts = .ok (merge (normalizeOld P)) :=
+  update_identity c subst moves P author ts hP
+
+/-- **C16 identity_keeps_lines (partial).** If moreover the priors are already in the normal
+    form every `update_attributions` result has (`merge (normalizeOld P) = P`), the identity
+    update returns them unchanged, hence every line attribution is kept.
+    FULL STATEMENT (not proved; checked by the oracle `identity_keeps_lines` on the real code):
+    for all in-range priors with `start ≤ end`,
+    `toLineAttrs (update [Equal c] … P) c = toLineAttrs P c`.  It is false in two regions,
+    witnessed below and replayed on the real code (known findings): zero-length priors
+    (deletion markers are dropped by the Equal branch) and two authors sharing a timestamp on
+    one line (update re-sorts by author, the first-on-tie winner flips). -/
+theorem identity_keeps_lines_partial (c : Text) (subst : List (Nat × Nat)) (moves : List Move)
+    (P : List Attr) (author : Str) (ts : Nat) (hP : Tame c.length P)
+    (hnorm : merge (normalizeOld P) = P) :
+    update [⟨.equal, c⟩] subst moves P author ts = .ok P ∧
+    (∀ out, update [⟨.equal, c⟩] subst moves P author ts = .ok out →
+      toLineAttrs out c = toLineAttrs P c) := by
+  have h := update_identity c subst moves P author ts hP
+  rw [hnorm] at h
+  refine ⟨h, ?_⟩
+  intro out hout
+  rw [h] at hout
+  cases hout
+  rfl
+
+/-- non-vacuity of `Tame` and of the normal-form hypothesis (overlapping ranges of two authors) -/
+example : Tame 6 [⟨0, 4, ['a'], 1⟩, ⟨2, 6, human, 2⟩] := by
+  intro a ha
+  simp only [List.mem_cons, List.mem_nil_iff, or_false] at ha
+  rcases ha with rfl | rfl <;> exact ⟨by decide, by decide⟩
+example : merge (normalizeOld [⟨0, 4, ['a'], 1⟩, ⟨2, 6, human, 2⟩]) = [⟨0, 4, ['a'], 1⟩, ⟨2, 6, human, 2⟩] := by
+  decide
+
+/-- excluded region 1 (known finding `identity:zero-length-prior`): a deletion marker inside
+    the text is dropped by an identity update and line 1 changes from human (overrode ai) to ai. -/
+theorem witness_identity_zero_length :
+    toLineAttrs [⟨0, 3, ['a', 'i'], 1⟩, ⟨1, 1, human, 2⟩] [97, 98, 10]
+      = .ok [⟨1, 1, human, some ['a', 'i']⟩] ∧
+    update [⟨.equal, [97, 98, 10]⟩] [] [] [⟨0, 3, ['a', 'i'], 1⟩, ⟨1, 1, human, 2⟩] ['a', 'i'] 9
+      = .ok [⟨0, 3, ['a', 'i'], 1⟩] ∧
+    toLineAttrs [⟨0, 3, ['a', 'i'], 1⟩] [97, 98, 10] = .ok [⟨1, 1, ['a', 'i'], none⟩] := by decide
+
+/-- excluded region 2 (known finding `identity:timestamp-shared-by-authors`): two authors with
+    the same timestamp on the same range; the update sorts by author and the winner flips. -/
+theorem witness_identity_ts_tie :
+    toLineAttrs [⟨0, 3, ['b'], 1⟩, ⟨0, 3, ['a'], 1⟩] [97, 98, 10] = .ok [⟨1, 1, ['b'], none⟩] ∧
+    update [⟨.equal, [97, 98, 10]⟩] [] [] [⟨0, 3, ['b'], 1⟩, ⟨0, 3, ['a'], 1⟩] ['z'] 9
+      = .ok [⟨0, 3, ['a'], 1⟩, ⟨0, 3, ['b'], 1⟩] ∧
+    toLineAttrs [⟨0, 3, ['a'], 1⟩, ⟨0, 3, ['b'], 1⟩] [97, 98, 10] = .ok [⟨1, 1, ['a'], none⟩] := by decide
+
 end GitAi.Tracker
 
+#print axioms GitAi.Tracker.line_char_roundtrip
+#print axioms GitAi.Tracker.witness_roundtrip_human
+#print axioms GitAi.Tracker.witness_roundtrip_overlap
+#print axioms GitAi.Tracker.identity_update
+#print axioms GitAi.Tracker.identity_keeps_lines_partial
+#print axioms GitAi.Tracker.witness_identity_zero_length
+#print axioms GitAi.Tracker.witness_identity_ts_tie
 #print axioms GitAi.Tracker.no_panic
 #print axioms GitAi.Tracker.witness_bad_insertion_index
 #print axioms GitAi.Tracker.in_bounds
